@@ -30,6 +30,9 @@ pub struct Case {
     pub kind: Kind,
     #[serde(default)]
     pub source: String,
+    /// both renderings annotate every variable definition (also function-typed ones: `h: fn int -> int : g`)
+    #[serde(default)]
+    pub annot_defs: bool,
 }
 
 fn binders_cfg(thorough: bool) -> GenCfg {
@@ -85,10 +88,12 @@ impl Check for C09 {
         let prog = Gen::new(&mut t, binders_cfg(tier == Tier::Thorough)).program();
         if t.chance(3, 4) {
             let (names, _) = shadow_plan(&mut t, &prog);
+            let annot_defs = t.bool();
             let mut plan = SurfacePlan::default();
             plan.names = Some(names.clone());
+            plan.annot_default.0 = annot_defs;
             let source = render(&prog, &plan).text;
-            Some(Case { prog, kind: Kind::Rename { names }, source })
+            Some(Case { prog, kind: Kind::Rename { names }, source, annot_defs })
         } else {
             // an out-of-scope use: a local of the same global function that is not visible at the site
             let (stmts, _) = plant::sites(&prog);
@@ -114,14 +119,15 @@ impl Check for C09 {
                 let where_ = format!("{:?}", site.ctx.placement);
                 let q = plant::insert_stmt(&prog, si, Stmt::Raw(format!("zzq9 :: {}", prog.var(var).name)));
                 let source = render(&q, &SurfacePlan::default()).text;
-                return Some(Case { prog, kind: Kind::OutOfScope { site: si, var, where_ }, source });
+                return Some(Case { prog, kind: Kind::OutOfScope { site: si, var, where_ }, source, annot_defs: false });
             }
             None
         }
     }
 
     fn evaluate(&self, case: &Case, labels: &mut Labels) -> Verdict {
-        let a = SurfacePlan::default();
+        let mut a = SurfacePlan::default();
+        a.annot_default.0 = case.annot_defs;
         let pa = render(&case.prog, &a);
         let oa = compile(&Project::single(pa.text.clone()));
         let la = match &oa {
@@ -141,6 +147,7 @@ impl Check for C09 {
                 }
                 let mut b = SurfacePlan::default();
                 b.names = Some(names.clone());
+                b.annot_default.0 = case.annot_defs;
                 let pb = render(&case.prog, &b);
                 let renamed = names.iter().zip(case.prog.vars.iter()).filter(|(n, v)| **n != v.name).count();
                 if rep.shadowed_refs > 0 {
@@ -225,8 +232,9 @@ impl Check for C09 {
                         }
                         let mut b = SurfacePlan::default();
                         b.names = Some(names.clone());
+                        b.annot_default.0 = case.annot_defs;
                         let source = render(&p.prog, &b).text;
-                        Step::Candidate(Case { prog: p.prog, kind: case.kind.clone(), source })
+                        Step::Candidate(Case { prog: p.prog, kind: case.kind.clone(), source, annot_defs: case.annot_defs })
                     }
                 }
             }
